@@ -54,6 +54,10 @@ CLAIMED = {
           "Generated-input search: pipeline equality over input/output formats, type selection, filter lists (incl. non-commuting harness filters) and every documented configuration key; file-over-inline precedence; error scenarios leave no output; every documented key x valid and invalid values enumerated; determinism across fresh processes, repetitions, histories, PYTHONHASHSEED and log settings.",
           "Trusted: vt/gen_cli.py compose() written from README/tt.py contract; 'documented values' transcribed narrowly from README.md. Unknown filter names are not asserted.",
           "DESIGN.md C19"),
+  "C04": ("grammar-generated TTML/IMSC XML with an independent translation to a DocSpec, interpreted by the reference interpreter and compared with reader+ISD snapshots; single-attribute corruption with log capture",
+          "Generated-input search over timing (par/seq, begin/dur/end, every time syntax, frame/tick rates), styling (style graphs, nested, initial, set), white space, ruby, and a corruption pass (malformed or unknown attributes must be ignored, logged and leave the rest unchanged).",
+          "Trusted: vt/gen_ttml.py to_docspec() (my reading of TTML2 12 / 10.4, self-tested) and vt/ref_isd.py. Known finding R-8 (unknown attributes not logged). Structural generation is driven by a Hypothesis-drawn seed (see module docstring).",
+          "DESIGN.md C04"),
 }
 NOT_APPLICABLE = {}
 
